@@ -3,7 +3,7 @@
    L3 = Vm/KvSpec.v (plain map, instruction specifications), L1 = Vm/KvModel.v (store + slot
    cache + the handlers), proofs in Vm/KvProofs.v and Vm/KvInstr.v; Vm.KvTie pins the order of
    checks of the Rust handlers the model was written against. *)
-From FV Require Import Base.Bytes Vm.KvSpec Vm.KvModel Vm.KvProofs Vm.KvInstr Vm.KvTie.
+From FV Require Import Base.Bytes Vm.KvSpec Vm.KvModel Vm.KvProofs Vm.KvInstr Vm.KvQuads Vm.KvTie.
 Open Scope N_scope.
 
 (* cache !! k = Some v -> store !! k = v is preserved by every program built from the slot
@@ -104,6 +104,38 @@ Theorem C33_clear_quads :
       end.
 Proof. exact scwq_plain. Qed.
 Print Assumptions C33_clear_quads.
+
+(* SRWQ: the values of the slots key, key+1, ..., key+n-1 (zeros for absent ones) are written to
+   consecutive 32-byte chunks at $rA, flag = all present; a present slot that is not 32 bytes long:
+   StorageOutOfBounds; a range leaving the key space: TooManySlots *)
+Theorem C33_read_quads :
+  forall (e : henv) (m : kvmap) (c b va vc vd : N) (kb : bytes),
+    h_ctx e = Some c -> h_rd e vc 32 = MOk kb -> REG_WRITABLE <= b ->
+    (forall a, In a (srwq_addrs va (N.to_nat vd)) -> h_wr e a 32 = None) ->
+    match spec_read_quads m c (be_decode kb) vd with
+    | SPanic r => run_plain (h_max_len e) (h_srwq e b va vc vd) m = (SPanic r, m, [])
+    | SOk (data, f) =>
+        exists mem, run_plain (h_max_len e) (h_srwq e b va vc vd) m =
+                      (SOk {| o_regs := [(b, f)]; o_err := None; o_mem := mem |}, m, [])
+                    /\ concat (map snd mem) = data /\ map fst mem = srwq_addrs va (N.to_nat vd)
+    end.
+Proof. exact srwq_statement_holds. Qed.
+Print Assumptions C33_read_quads.
+
+(* SWWQ: slot key+i := i-th 32-byte chunk read at $rC; result = number of slots that were absent *)
+Theorem C33_write_quads :
+  forall (e : henv) (m : kvmap) (c b va vc vd : N) (kb : bytes) (chunks : list bytes),
+    h_ctx e = Some c -> h_rd e va 32 = MOk kb -> be_decode kb < KEY_LIMIT -> REG_WRITABLE <= b -> lenN chunks = vd ->
+    (forall j, (j < length chunks)%nat -> h_rd e (sat64 (vc + 32 * N.of_nat j)) 32 = MOk (nth j chunks [])) ->
+    (forall ch, In ch chunks -> lenN ch = 32) ->
+    match spec_write_quads m c (be_decode kb) chunks (h_max_len e) with
+    | SPanic r => fst (fst (run_plain (h_max_len e) (h_swwq e b va vc vd) m)) = SPanic r
+    | SOk (m', f) =>
+        exists m2, run_plain (h_max_len e) (h_swwq e b va vc vd) m =
+                     (SOk (out_regs [(b, f)]), m2, chunk_writes c (be_decode kb) chunks) /\ kv_eq m2 m'
+    end.
+Proof. exact swwq_statement_holds. Qed.
+Print Assumptions C33_write_quads.
 
 (* SCLR *)
 Theorem C33_clear :
